@@ -59,8 +59,12 @@ def r20_1(ctx):
     runs = [n for n in ast.walk(fi.node) if isinstance(n, ast.Call) and U(n.func) == "pcpp.pcmd.CmdPreprocessor"]
     ctx.check("pcpp runs twice, each on the vector built just before", len(runs) == 2 and all(U(r.args[0]) == "argv" for r in runs), "2 x CmdPreprocessor(argv)", str([U(r)[:50] for r in runs]), fn_where(idx, fi))
     # combined = patched macros, newline, shortcode
-    wr = [U(n) for n in sorted((n for n in ast.walk(fi.node) if isinstance(n, ast.Call) and call_tail(n) in ("writelines", "write")), key=lambda n: (n.lineno, n.col_offset))]
-    ctx.check("combined file = patched macros + newline + shortcode", wr == ["f.writelines(g.readlines())", "f.write('\\n')", "f.writelines(g.readlines())"] and "self.shortcode_path" in U(fi.node), "macros, '\\n', shortcode", str(wr), fn_where(idx, fi))
+    wcalls = sorted((n for n in ast.walk(fi.node) if isinstance(n, ast.Call) and call_tail(n) in ("writelines", "write")), key=lambda n: (n.lineno, n.col_offset))
+    shape = [(call_tail(n), "readlines" if (n.args and isinstance(n.args[0], ast.Call) and call_tail(n.args[0]) == "readlines") else U(n.args[0]) if n.args else "") for n in wcalls]
+    one_out = len({U(n.func.value) for n in wcalls}) == 1
+    opens = [U(n.args[0]) for n in sorted((n for n in ast.walk(fi.node) if isinstance(n, ast.Call) and call_name(n) == "open"), key=lambda n: (n.lineno, n.col_offset))]
+    ctx.check("combined file = patched macros + newline + shortcode", shape == [("writelines", "readlines"), ("write", "'\\n'"), ("writelines", "readlines")] and one_out and opens[1:] == ["Conf.get_path(InputFile.HEXAGON_PP_MACROS_PATCHED_H)", "self.shortcode_path"],
+              "macros, '\\n', shortcode written to the combined file", f"{shape} opens={opens}", fn_where(idx, fi))
     fi = f("remove_onetime_do_whiles")
     ctx.check("do-while stripper rewrites the resolved file in place", getpaths(fi.node) == ["HEXAGON_PP_SHORTCODE_RESOLVED_H"] and [U(n.args[1]) for n in ast.walk(fi.node) if isinstance(n, ast.Call) and call_name(n) == "open" and len(n.args) > 1] == ["'w'"],
               "read RESOLVED, write RESOLVED", str(getpaths(fi.node)), fn_where(idx, fi))
@@ -148,15 +152,16 @@ def r20_3(ctx):
     ctx.check("uncaptured consuming atoms are whitespace only", ws_only and len(unc) == 3, "3 x \\s*", f"{unc} whitespace-only={ws_only}", w)
     # rebuild and loop
     whiles = [n for n in ast.walk(fi.node) if isinstance(n, ast.While)]
-    ctx.check("stripping repeats until nothing matches", len(whiles) == 1 and U(whiles[0].test) == "m", "while m:", str([U(x.test) for x in whiles]), w)
+    ctx.check("stripping repeats until nothing matches", len(whiles) == 1 and isinstance(whiles[0].test, ast.Name), "while <match>:", str([U(x.test) for x in whiles]), w)
     if whiles:
         body = whiles[0].body
         assigns = {U(s.targets[0]): s.value for s in body if isinstance(s, ast.Assign)}
-        tmp = assigns.get("tmp")
+        mvar = U(whiles[0].test)
+        line_var, tmp = next(((k, v2) for k, v2 in assigns.items() if k != mvar and group_uses(v2, None)), (None, None))
         ok = tmp is not None and group_uses(tmp, None) == [1, 2, 3] and not [c for c in ast.walk(tmp) if isinstance(c, ast.Constant) and isinstance(c.value, str)]
         ctx.check("rebuilt line = group 1 + group 2 + group 3", ok, "m.group(1) + m.group(2) + m.group(3)", U(tmp) if tmp is not None else "?", w)
-        nxt = assigns.get("m")
-        ctx.check("next round searches the rebuilt line", nxt is not None and isinstance(nxt, ast.Call) and U(nxt.args[1]) == "tmp", "m = re.search(pattern, tmp)", U(nxt)[:70] if nxt is not None else "?", w)
+        nxt = assigns.get(mvar)
+        ctx.check("next round searches the rebuilt line", nxt is not None and isinstance(nxt, ast.Call) and U(nxt.args[1]) == line_var, "m = re.search(pattern, <rebuilt line>)", U(nxt)[:70] if nxt is not None else "?", w)
     ps = paths_of(fi.node)
     rets = [p for p in ps if p.outcome == "return"]
     nomatch = [p for p in rets if any(not pol and "re.search" in U(g) for g, pol in p.guards) and not any(e.kind == "loop" for e in p.events)]
